@@ -385,6 +385,8 @@ impl FixedCapacityMemoryPool {
         loop {
             let active = stats.active_blocks.load(Ordering::SeqCst);
             let utilization = (active * 10000 / self.config.total_blocks) as u32;
+            #[cfg(zipora_verif)]
+            crate::memory::verif_sched::point(crate::memory::verif_sched::FC_UTIL_STORE);
             stats.utilization.store(utilization, Ordering::SeqCst);
             if stats.active_blocks.load(Ordering::SeqCst) == active {
                 break;
